@@ -196,9 +196,7 @@ def r3(run):
     ci = bk.get(C.INSERT_FRAME, (None, {}))[1].get("idx_context")
     if ci and ci[0][0] == "fn":
         cb = C.body_or_fail(run, ci[0][1])
-        rets = cb.return_defs()
-        l = q.root_local(cb, rets[0][2]["use"]) if len(rets) == 1 and isinstance(rets[0][2], dict) and "use" in rets[0][2] else None
-        csegs = q.vec_segments(cb, l) if l is not None else []
+        csegs = q.returned_vec_segments(facts, cb)
         desc = " ++ ".join(seg_desc(s) for s in csegs)
         ok = len(csegs) == 2 and all(s[0] == "bytes" for s in csegs) and q.has_field(csegs[0][1], "context_id") and q.has_field(csegs[1][1], "id") \
             and not q.has_field(csegs[1][1], "context_id")
